@@ -175,6 +175,40 @@ class FakeComp(workflow.ComponentState):
             self._in_finish = False
 
 
+class SpyLock(object):
+    """Replacement of Controller.comp_lock (an RLock): counts the threads that wait for it, so that the harness can
+    hold the lock ("a scheduler pass is under way"), let a notification arrive and see it park at the lock."""
+
+    def __init__(self):
+        self._l = threading.RLock()
+        self.cv = threading.Condition()
+        self.waiters = 0
+
+    def acquire(self, blocking=True, timeout=-1):
+        if self._l.acquire(False):
+            return True
+        if not blocking:
+            return False
+        with self.cv:
+            self.waiters += 1
+            self.cv.notify_all()
+        try:
+            return self._l.acquire(True, timeout)
+        finally:
+            with self.cv:
+                self.waiters -= 1
+
+    def release(self):
+        self._l.release()
+
+    def __enter__(self):
+        self.acquire()
+        return self
+
+    def __exit__(self, *a):
+        self.release()
+
+
 class ManualEvent(object):
     """Replacement of Controller._event_scheduler: parks the run() thread until the harness ticks."""
 
@@ -252,6 +286,9 @@ class Driver(object):
         cdb = types.SimpleNamespace(cdb_get_document_component=lambda **kw: [],
                                     cdb_query_component_files_exist=lambda *a, **k: False) if with_cdb else None
         self.ctl = control.Controller(exp, experiment_name='verif', cdb=cdb)
+        self.ctl.comp_lock = SpyLock()
+        self.lockfin = False         # finished-notifications arrive while comp_lock is held (a pass is under way)
+        self.atomicity = []          # what a notification changed before it held the lock
         self.ctl.controllerPool = reactivex.scheduler.ImmediateScheduler()
         self.ctl._observe_completionCheck = lambda stage: None
         self.ev = ManualEvent()
@@ -400,7 +437,44 @@ class Driver(object):
     def deliver_fin(self, c):
         self.finq.remove(c)
         comp = self.comps[c]
-        comp._fin.on_next(({'isAlive': False, 'state': comp.state}, comp))
+        if not self.lockfin:
+            comp._fin.on_next(({'isAlive': False, 'state': comp.state}, comp))
+            self._scan()
+            return
+        # the notification arrives on another thread while the lock is held, as during a scheduler pass: it has to
+        # wait, and until it gets the lock nothing the controller decides on may have changed (the model's events
+        # are the units the code runs under comp_lock)
+        before = self.observe()
+        lk = self.ctl.comp_lock
+        msg = ({'isAlive': False, 'state': comp.state}, comp)
+
+        def body():
+            try:
+                comp._fin.on_next(msg)
+            except BaseException as e:   # noqa
+                self.errors.append('finished-notification thread: %s' % type(e).__name__)
+        t = threading.Thread(target=body, daemon=True)
+        lk.acquire()
+        try:
+            t.start()
+            import time as _time
+            t0 = _time.time()
+            while t.is_alive() and lk.waiters == 0:
+                _time.sleep(0.0005)
+                if _time.time() - t0 > 30:
+                    self.errors.append('finished-notification neither ended nor reached comp_lock within 30 s')
+                    raise RuntimeError('controller loop stuck')
+            during = self.observe()
+        finally:
+            lk.release()
+        t.join(30)
+        if t.is_alive():
+            self.errors.append('finished-notification did not end within 30 s after comp_lock was released')
+            raise RuntimeError('controller loop stuck')
+        if during != before:
+            diff = [k for k in before if before[k] != during[k]]
+            self.atomicity.append({'event': ['Fin', c], 'changed_before_lock': diff,
+                                   'before': {k: before[k] for k in diff}, 'during': {k: during[k] for k in diff}})
         self._scan()
 
     def _scan(self):
